@@ -1,4 +1,10 @@
-"""C06 on a transport with WRITE flow control — scenarios and oracle (property statement on the implementation alone).
+"""C06 and C05 on a transport with WRITE flow control — scenarios and oracles (property statements on the implementation alone).
+
+(C05, `oracle_close`: every close trigger — close, initiate_close, logout / end_session, peer end-of-stream, a logout frame, a
+tripped monitor, close awaited from a message callback — issued WHILE the transport has writing paused, after it resumed, or with
+resume_writing / connection_lost delivered around the close: the session reports closed, the transport is closed once, the close
+callback runs exactly once after it, the close calls return normally.  Props/C05Flow.lean: the callbacks are stutter steps of the
+session machine and the sync triggers create the closing task in ANY state.  C06, `oracle`: below.)
 
 The session-machine scenarios of sess_gen / sess_checks run on a transport that never talks back.  A real asyncio transport does:
 when the peer stops reading it buffers what the session writes, calls `protocol.pause_writing()` once the buffer is above its
@@ -25,7 +31,7 @@ After the script the run goes on for SETTLE local intervals ("observed for sever
 
 Everything the session and the harness do is appended to ONE ordered log (writes, transport close, callback enter/exit, every task
 the loop creates, flow-control callbacks); the oracle reads the statement off that log:
-once the close has completed (close callback returned; without one: transport closed) — no `transport.write` of the session's own
+(C06) once the close has completed (close callback returned; without one: transport closed) — no `transport.write` of the session's own
 making (a message the script's application sends itself after the close is the application's doing), no message / close callback, **no task started for the session**; at the end every task the library started has finished, none with an exception
 nobody retrieved, nothing reached the loop's exception handler.
 The Lean session machine has no event for these callbacks: `AsyncSession` inherits `pause_writing` / `resume_writing` from
